@@ -31,6 +31,8 @@ type SharedDecl struct {
 
 type sharedUse struct {
 	fn, v, how, pos string
+	pkgPath         string
+	escape          bool // a mutable alias of the variable leaves the function (returned)
 }
 
 func (w *World) sharedUses() []sharedUse {
@@ -90,7 +92,14 @@ func (w *World) sharedUses() []sharedUse {
 					}
 				}
 				add := func(v *types.Var, how string, p token.Pos) {
-					out = append(out, sharedUse{fn: fn, v: shortPkg(v.Pkg().Path()) + "." + v.Name(), how: how, pos: w.pos(p)})
+					out = append(out, sharedUse{fn: fn, v: shortPkg(v.Pkg().Path()) + "." + v.Name(), how: how, pos: w.pos(p), pkgPath: pk.Path})
+				}
+				isRefType := func(t types.Type) bool {
+					switch t.Underlying().(type) {
+					case *types.Slice, *types.Map, *types.Pointer, *types.Chan:
+						return true
+					}
+					return false
 				}
 				ast.Inspect(fd.Body, func(n ast.Node) bool {
 					switch x := n.(type) {
@@ -101,6 +110,26 @@ func (w *World) sharedUses() []sharedUse {
 						for _, l := range x.Lhs {
 							if v := pkgVar(l); v != nil {
 								add(v, "assigned", l.Pos())
+							}
+						}
+					case *ast.ReturnStmt:
+						// a package-level slice, map or pointer handed out as a result: the caller gets a
+						// mutable alias of state that every later call reads
+						for _, r := range x.Results {
+							e := ast.Unparen(r)
+							for {
+								if c, ok := e.(*ast.CallExpr); ok && len(c.Args) == 1 {
+									if tv, ok := pk.Info.Types[c.Fun]; ok && tv.IsType() && isRefType(tv.Type) {
+										e = ast.Unparen(c.Args[0]) // a conversion between reference types keeps the alias
+										continue
+									}
+								}
+								break
+							}
+							if v := pkgVar(e); v != nil {
+								if tv, ok := pk.Info.Types[e]; ok && isRefType(tv.Type) {
+									out = append(out, sharedUse{fn: fn, v: shortPkg(v.Pkg().Path()) + "." + v.Name(), how: "returned as a mutable alias", pos: w.pos(r.Pos()), pkgPath: pk.Path, escape: true})
+								}
 							}
 						}
 					case *ast.IncDecStmt:
@@ -182,7 +211,16 @@ func (w *World) sharedResults() []*obResult {
 		if seen[name] > 1 {
 			name = fmt.Sprintf("%s~%d", name, seen[name])
 		}
-		ob := &Obligation{Name: name, Tags: []string{"C12"}, Func: u.fn, Kind: "shared-state", Pos: u.pos,
+		tags := []string{"C12"}
+		if u.escape {
+			// what the variable feeds (e.g. the replacement text of Redact) is the business of the package's own properties
+			for _, t := range homeProps(u.pkgPath + ".x") {
+				if t != "C12" {
+					tags = append(tags, t)
+				}
+			}
+		}
+		ob := &Obligation{Name: name, Tags: tags, Func: u.fn, Kind: "shared-state", Pos: u.pos,
 			Descr: fmt.Sprintf("package-level variable %s is %s in %s", u.v, u.how, u.fn)}
 		r := &obResult{Ob: ob}
 		if d, ok := decl[u.v]; ok {
